@@ -477,6 +477,9 @@ package channel
 //@   method Def
 //@     requires recv != nil && typeof(recv) != typetag("noApp")
 //@     ensures result == appDef(recv) && result != nil
+//@   method NewData
+//@     requires recv != nil
+//@     ensures result != nil
 //@ end
 //@ interface AppID
 //@   method Equal
@@ -613,11 +616,39 @@ package channel
 //@   requires def != nil
 //@   ensures result1 == nil ==> result0 != nil
 
+// CalcID of a registered backend is assumed to succeed with a non-zero id on validated parameters
+// (environment/cryptographic assumption; the sim backend's CalcID is examined under C17).
 //@ interface Backend
 //@   method NewAsset
 //@     requires recv != nil
 //@     ensures result != nil
+//@   method CalcID
+//@     requires recv != nil && arg0 != nil
+//@     ensures result1 == nil && result0 != Zero
 //@ end
+
+//@ pred backendsKnown(m map[wallet.BackendID]wallet.Address) = forall b wallet.BackendID :: has(m, b) ==> has(backend, b) && backend[b] != nil
+
+//@ func CalcID
+//@   requires p != nil && len(p.Parts) > 0 && backendsKnown(p.Parts[0])
+//@   ensures len(p.Parts[0]) > 0 ==> result1 == nil && result0 != Zero
+//@   loop 1
+//@     modifies
+//@     invariant lastErr == nil && forall b wallet.BackendID :: !visited(b)
+
+//@ func NewParams
+//@   requires forall i int :: 0 <= i && i < len(parts) ==> addrMapNonNil(parts[i])
+//@   ensures result1 != nil ==> result0 == nil
+//@   ensures result1 == nil ==> result0 != nil && fresh(result0) && result0.ChallengeDuration == challengeDuration && result0.Parts == parts &&
+//@           result0.App == app && result0.Nonce == nonce && result0.LedgerChannel == ledger && result0.VirtualChannel == virtual && result0.Aux == aux &&
+//@           challengeDuration != 0 && len(parts) >= 2 && len(parts) <= MaxNumParts && app != nil && nonce != nil
+//@   loop 1
+//@     modifies
+//@     invariant forall k int :: 0 <= k && k < $i ==> backendsKnown(parts[k]) && len(parts[k]) > 0
+//@   loop 2
+//@     modifies
+//@     invariant 0 <= $i - 1 && forall b wallet.BackendID :: visited(b) ==> has(backend, b) && backend[b] != nil
+
 
 //@ func (*Balances).Decode
 //@   requires r != nil
@@ -657,3 +688,42 @@ package channel
 //@     modifies a.Locked[*]
 //@     invariant len(a.Locked) == numLocked && fresh(arr(a.Locked)) && off(a.Locked) == 0 && len(a.Assets) == numAssets && len(a.Backends) == numAssets && nonNilAssets(a.Assets) && nonNilBalances(a.Balances)
 //@     invariant forall k int :: 0 <= k && k < $i ==> nonNilBals(a.Locked[k].Bals)
+
+//@ func (OptAppDec).Decode
+//@   requires r != nil && d.App != nil
+//@   modifies d.App.*
+//@   ensures err == nil ==> *d.App != nil
+
+//@ func (OptAppAndDataDec).Decode
+//@   requires r != nil && o.App != nil && o.Data != nil
+//@   modifies o.App.*, o.Data.*
+//@   ensures err == nil ==> *o.App != nil && *o.Data != nil
+
+//@ func (*State).Decode
+//@   requires r != nil
+//@   modifies s.*
+//@   ensures result == nil ==> s.App != nil && s.Data != nil && validAlloc(s.Allocation) && len(s.Backends) == len(s.Assets) &&
+//@           nonNilAssets(s.Assets) && nonNilBalances(s.Balances) && nonNilLocked(s.Locked)
+
+//@ func (*Transaction).Decode
+//@   requires r != nil
+//@   modifies t.*
+//@   ensures result == nil && t.State != nil ==> stateWF(t.State) && validAlloc(t.State.Allocation) && len(t.State.Backends) == len(t.State.Assets) && t.State.Data != nil &&
+//@           len(t.Sigs) == len(t.State.Balances[0])
+
+// balancesGE(b, a): b >= a element-wise with identical dimensions.
+//@ pred balsGE(b []Bal, a []Bal) = len(a) == len(b) && forall i int :: 0 <= i && i < len(a) ==> val(b[i]) >= val(a[i])
+//@ pred balancesGE(b Balances, a Balances) = len(a) == len(b) && forall i int :: 0 <= i && i < len(a) ==> balsGE(b[i], a[i])
+
+//@ func (Balances).AssertGreaterOrEqual
+//@   requires nonNilBalances(b) && nonNilBalances(bals)
+//@   ensures result == nil <==> balancesGE(b, bals)
+//@   loop 1
+//@     invariant forall k int :: 0 <= k && k < $i ==> balsGE(b[k], bals[k])
+//@   loop 2
+//@     invariant 0 <= i && i < len(bals) && len(bals[i]) == len(b[i]) && forall l int :: 0 <= l && l < $i ==> val(b[i][l]) >= val(bals[i][l])
+
+// stateDecoded(s): what a successfully decoded or constructed state guarantees (well-formed allocation, non-nil parts).
+//@ pred stateDecoded(s *State) = s != nil && s.App != nil && s.Data != nil && validAlloc(s.Allocation) && len(s.Backends) == len(s.Assets) &&
+//@   nonNilAssets(s.Assets) && nonNilBalances(s.Balances) && nonNilLocked(s.Locked)
+//@ pred allocDecoded(a *Allocation) = a != nil && validAlloc(*a) && len(a.Backends) == len(a.Assets) && nonNilAssets(a.Assets) && nonNilBalances(a.Balances) && nonNilLocked(a.Locked)
